@@ -48,6 +48,18 @@ def run_mvdr(case, R):
     lead = [(), (K,), (2, K)][case['stack']]
     a = gen.cnormal(rng, (*lead, F, D))
     info = dict(D=D, F=F, lead=list(lead), cond=case['cond'])
+    if case['rs'][-1] % 3 == 0:
+        # block-online use: the caller keeps ONE noise PSD array and updates it in place between calls (recursive smoothing); the
+        # call judged below is the second one on the same objects - "for any noise PSD" means the one the array holds now
+        old = gen.hpd(rng, D, cond=case['cond'], lead=(F,), scale=float(10 ** rng.uniform(-3, 3)))
+        new, Pn = Pn, old
+        try:
+            get_mvdr_vector(a, Pn)
+        except Exception as e:
+            if not instr.is_library_exception(e):
+                raise
+        Pn *= 0.7; Pn += 0.3 * new
+        info['history'] = 'same PSD object updated in place'
     try:
         w = get_mvdr_vector(a, Pn)
     except Exception as e:
@@ -87,7 +99,7 @@ def run_lcmv(case, R):
     from pb_bss.extraction import get_lcmv_vector
     rng = gen.rng_of(case)
     D, F = case['D'], case['F']
-    K = min(case['K'], D - 1) or 1
+    K = min(case['K'], D)                 # as many constraints as sensors is still solvable (K == D: the constraints alone fix w)
     cond = min(case['cond'], 1e4)
     Pn = gen.hpd(rng, D, cond=cond, lead=(F,), real=(case['rs'][-1] % 4 == 0))
     A = gen.cnormal(rng, (K, F, D))
